@@ -38,6 +38,14 @@
 //!   types instantiated at `String` (must be rejected, E0277) and at `u32` (must compile) — plus,
 //!   for every row of Gen/PubFns that must require `T: Copy` (same set as the driver's
 //!   `copy_rows`), a generated call at `String` (must be rejected) and at `u8` (must compile).
+//! * crate `macros` (C17): `probes/macros.rs` — under `#![forbid(unsafe_code)]`, a raw-pointer
+//!   deref passed as an ARGUMENT of each exported macro that takes an expression (same set as the
+//!   driver's `expr_macros`) must be rejected (E0133): the macro does not expand caller code
+//!   inside an `unsafe` block of its own.
+//! * crate `constgen` (C17): `probes/constgen.rs` — instantiations of `InlineVec` that violate a
+//!   const-parameter guard (`TAG == 1 << SHIFT`, `SHIFT == 0`, `CAP > max` …) must fail to BUILD
+//!   (E0080; a second invocation `cargo build -p probe_constgen`, since `cargo check` does not
+//!   evaluate the guards), their twins must build.
 //! * crate `escape` (C17): the hand-written corpus `probes/escape.rs` of borrow-escape programs
 //!   (must be rejected by the borrow checker) and their must-compile twins; the expectation of
 //!   each is also checked against the model (`tied <row>`).
@@ -59,6 +67,8 @@ const AUTOTRAIT_PRELUDE: &str = include_str!("../../probes/autotrait_prelude.rs"
 const UNSAFE_PRELUDE: &str = include_str!("../../probes/unsafe_prelude.rs");
 const SELFESCAPE_PRELUDE: &str = include_str!("../../probes/selfescape_prelude.rs");
 const BOUNDS_SRC: &str = include_str!("../../probes/bounds.rs");
+const MACROS_SRC: &str = include_str!("../../probes/macros.rs");
+const CONSTGEN_SRC: &str = include_str!("../../probes/constgen.rs");
 const DOORS_SRC: &str = include_str!("../../probes/doors.rs");
 const PACKAGE_TMPL: &str = include_str!("../../probes/package.toml.tmpl");
 
@@ -159,6 +169,67 @@ fn write(path: &Path, content: &str) {
         std::fs::create_dir_all(p).unwrap_or_else(|e| internal(&format!("mkdir {p:?}: {e}")));
     }
     std::fs::write(path, content).unwrap_or_else(|e| internal(&format!("write {path:?}: {e}")));
+}
+
+/// `cargo build -p <krate>`: lines of the crate's `src/lib.rs` at which rustc reports a
+/// post-monomorphization failure ("the above error was encountered while instantiating …"),
+/// with the const-evaluation errors seen (for display).
+fn cargo_build_instantiation_failures(dir: &Path, krate: &str) -> (BTreeMap<usize, String>, Vec<String>) {
+    let out = Command::new("cargo")
+        .arg("build")
+        .arg("-p")
+        .arg(krate)
+        .arg("--message-format=json")
+        .current_dir(dir)
+        .env("CARGO_TARGET_DIR", dir.join("target"))
+        .env_remove("RUSTFLAGS")
+        .output()
+        .unwrap_or_else(|e| internal(&format!("cannot run cargo build: {e}")));
+    let mut lines: BTreeMap<usize, String> = BTreeMap::new();
+    let mut errors: Vec<String> = vec![];
+    let mut finished = false;
+    for line in String::from_utf8_lossy(&out.stdout).lines() {
+        let Ok(v) = serde_json::from_str::<Value>(line) else { continue };
+        match v["reason"].as_str() {
+            Some("build-finished") => finished = true,
+            Some("compiler-message") => {
+                let target = v["target"]["name"].as_str().unwrap_or("");
+                let msg = &v["message"];
+                let level = msg["level"].as_str().unwrap_or("");
+                let text = msg["message"].as_str().unwrap_or("").to_string();
+                if level == "error" && !target.starts_with("probe_") {
+                    internal(&format!("build error outside the probe crates ({target}): {text}"));
+                }
+                if target != krate {
+                    continue;
+                }
+                if level == "error" {
+                    let code = msg["code"]["code"].as_str().unwrap_or("");
+                    if text.starts_with("aborting due to") || text.starts_with("could not compile") {
+                        continue;
+                    }
+                    if code != "E0080" {
+                        internal(&format!("{krate}: unexpected build error {code}: {text}"));
+                    }
+                    errors.push(text);
+                } else if level == "note" && text.contains("encountered while instantiating") {
+                    if let Some(spans) = msg["spans"].as_array() {
+                        for sp in spans {
+                            let file = sp["file_name"].as_str().unwrap_or("");
+                            if sp["is_primary"].as_bool() == Some(true) && file.ends_with("src/lib.rs") && !file.starts_with('/') {
+                                lines.insert(sp["line_start"].as_u64().unwrap_or(0) as usize, text.clone());
+                            }
+                        }
+                    }
+                }
+            }
+            _ => {}
+        }
+    }
+    if !finished {
+        internal(&format!("cargo build did not finish:\n{}", String::from_utf8_lossy(&out.stderr)));
+    }
+    (lines, errors)
 }
 
 /// Runs cargo check on the workspace; returns per-crate, per-line error diagnostics.
@@ -683,7 +754,7 @@ fn main() {
         crates.push("autotrait");
     }
     if run_c17 {
-        crates.extend(["unsafety", "escape", "selfescape", "bounds"]);
+        crates.extend(["unsafety", "escape", "selfescape", "bounds", "macros", "constgen"]);
     }
     if run_c06 {
         crates.push("doors");
@@ -711,6 +782,8 @@ fn main() {
         ("selfescape", &self_src),
         ("doors", &doors_src),
         ("bounds", &bounds_src),
+        ("macros", &MACROS_SRC.to_string()),
+        ("constgen", &CONSTGEN_SRC.to_string()),
     ] {
         if !crates.contains(&krate) {
             continue;
@@ -723,6 +796,11 @@ fn main() {
         write(&dir.join(krate).join("src/lib.rs"), src);
     }
     let diags = cargo_check(&dir, &crates);
+    let (constgen_failed, constgen_errors) = if run_c17 {
+        cargo_build_instantiation_failures(&dir, "probe_constgen")
+    } else {
+        (BTreeMap::new(), vec![])
+    };
     cleanup();
     let empty = BTreeMap::new();
 
@@ -910,6 +988,81 @@ fn main() {
         }
     }
 
+    // ------------------------------------------------------------------ verdicts: C17 macros + const guards
+    let macros_corpus = if run_c17 { parse_corpus(MACROS_SRC) } else { vec![] };
+    let constgen_corpus = if run_c17 { parse_corpus(CONSTGEN_SRC) } else { vec![] };
+    let mut n_macros_ok = 0;
+    let mut n_constgen_ok = 0;
+    if run_c17 {
+        let md = diags.get("probe_macros").unwrap_or(&empty);
+        for (idx, p) in macros_corpus.iter().enumerate() {
+            let end = macros_corpus.get(idx + 1).map_or(usize::MAX, |q| q.first_line);
+            let mut codes = BTreeSet::new();
+            let mut msgs = vec![];
+            for (_, d) in md.range(p.first_line..end) {
+                codes.extend(d.codes.iter().cloned());
+                msgs.extend(d.messages.iter().cloned());
+            }
+            if let Some(c) = codes.iter().find(|c| c.as_str() != "E0133") {
+                internal(&format!("macro probe `{}` failed for an unrelated reason {c}: {msgs:?}", p.name));
+            }
+            let rejected = !codes.is_empty();
+            if rejected == p.must_fail {
+                n_macros_ok += 1;
+            } else {
+                disagreements.push(json!({
+                    "property": "C17",
+                    "kind": "impl-vs-oracle",
+                    "input": p.text.lines().collect::<Vec<_>>(),
+                    "expected": if p.must_fail { "rejected (E0133): a macro argument is the caller's code and must stay outside any `unsafe` block of the macro" } else { "accepted" },
+                    "observed": if rejected { format!("rejected: {codes:?} {msgs:?}") } else { "accepted under #![forbid(unsafe_code)]: the macro expands its argument inside its own unsafe block".to_string() },
+                    "profile": "check"
+                }));
+            }
+        }
+        for (ln, d) in md {
+            if macros_corpus.first().map_or(true, |p| *ln < p.first_line) {
+                internal(&format!("macros crate: error in the prelude (line {ln}): {:?}", d.messages));
+            }
+        }
+        // every exported macro that takes an expression has a must_fail probe
+        let covered: BTreeSet<String> = macros_corpus.iter().filter(|p| p.must_fail).filter_map(|p| p.row.clone()).collect();
+        let a = ask("expr_macros");
+        let listed: BTreeSet<String> = a.split(';').filter(|x| !x.is_empty()).map(str::to_string).collect();
+        if covered != listed {
+            disagreements.push(json!({
+                "property": "C17",
+                "kind": "impl-vs-model",
+                "input": ["expr_macros"],
+                "expected": format!("a raw-pointer-deref probe in probes/macros.rs for every exported macro taking an expression: {listed:?}"),
+                "observed": format!("probes exist for {covered:?}"),
+                "profile": "check"
+            }));
+        }
+        for (idx, p) in constgen_corpus.iter().enumerate() {
+            let end = constgen_corpus.get(idx + 1).map_or(usize::MAX, |q| q.first_line);
+            let hit: Vec<&String> = constgen_failed.range(p.first_line..end).map(|(_, m)| m).collect();
+            let rejected = !hit.is_empty();
+            if rejected == p.must_fail {
+                n_constgen_ok += 1;
+            } else {
+                disagreements.push(json!({
+                    "property": "C17",
+                    "kind": "impl-vs-oracle",
+                    "input": p.text.lines().collect::<Vec<_>>(),
+                    "expected": if p.must_fail { "fails to build (E0080): the instantiation violates a const-parameter guard" } else { "builds" },
+                    "observed": if rejected { format!("fails to build: {hit:?}") } else { format!("builds (const-evaluation errors seen elsewhere: {constgen_errors:?})") },
+                    "profile": "check"
+                }));
+            }
+        }
+        for (ln, m) in &constgen_failed {
+            if constgen_corpus.first().map_or(true, |p| *ln < p.first_line) {
+                internal(&format!("constgen crate: failure in the prelude (line {ln}): {m}"));
+            }
+        }
+    }
+
     // ------------------------------------------------------------------ verdicts: C17 bounds
     let bd = diags.get("probe_bounds").unwrap_or(&empty);
     let mut n_bounds_ok = 0;
@@ -1019,8 +1172,8 @@ fn main() {
     }
 
     // ------------------------------------------------------------------ the table theorems' row predicates
-    for q in ["rows_c05", "rows_c17"] {
-        if (q == "rows_c05" && !run_c05) || (q == "rows_c17" && !run_c17) {
+    for q in ["rows_c05", "rows_c17", "rows_c17s"] {
+        if (q == "rows_c05" && !run_c05) || (q != "rows_c05" && !run_c17) {
             continue;
         }
         let a = ask(q);
@@ -1048,7 +1201,7 @@ fn main() {
     }
 
     let programs = auto_rows.len() + 2 * unsafe_rows.len() + escape.len() + self_rows.len()
-        + bounds_corpus.len() + 2 * copy_rows.len()
+        + bounds_corpus.len() + 2 * copy_rows.len() + macros_corpus.len() + constgen_corpus.len()
         + doors_corpus.len() + door_rows.len();
     let mut distribution = serde_json::Map::new();
     let mut rules: Vec<&str> = vec![];
@@ -1077,6 +1230,10 @@ fn main() {
         distribution.insert("c17_bounds_corpus_as_expected".into(), json!(n_bounds_ok));
         distribution.insert("c17_copy_rows".into(), json!(copy_rows.len()));
         distribution.insert("c17_copy_rows_rejected_at_String".into(), json!(n_copy_rejected));
+        distribution.insert("c17_macro_programs".into(), json!(macros_corpus.len()));
+        distribution.insert("c17_macro_as_expected".into(), json!(n_macros_ok));
+        distribution.insert("c17_constgen_programs".into(), json!(constgen_corpus.len()));
+        distribution.insert("c17_constgen_as_expected".into(), json!(n_constgen_ok));
         distribution.insert("c17_table_rows".into(), json!(collected.rows.len()));
         distribution.insert("c17_sites".into(), json!(collected.sites.len()));
         rules.push("C17: every `_unchecked`/`# Safety`/unsafe row of the public-function table called without `unsafe` is rejected (E0133) and compiles inside `unsafe {}`; every escape-corpus program gets the expected borrowck verdict and the model's `tied` answer; every self-escape program's verdict equals the lifetime skeleton's prediction; the compiled Gen/PubFns flags the same rows as the source; plus the row predicates of the C17 theorems (`rows_c17`)");
